@@ -506,8 +506,8 @@ func (b Builder) PyUint64(uintVal Expr) (ret Expr) {
 
 // PyStr returns a py-style string constant expression.
 func (b Builder) PyStr(v string) Expr {
-	fn := b.Pkg.pyFunc("PyUnicode_FromString", b.Prog.tyPyUnicodeFromString())
-	return b.Call(fn, b.CStr(v))
+	// the literal may contain NUL bytes: pass data and length, never a NUL-terminated C string
+	return b.PyStrExpr(b.Str(v))
 }
 
 // PyStrExpr(str string) *Object
